@@ -39,16 +39,16 @@ CorrQ(m) == m - MulQ(m - MulQ(m, m), ecq)
 
 Advance(tags) ==
   /\ l' = l + 1
-  /\ dead' = (dead \/ tags # {})
-  /\ Flag(l, IF dead THEN {} ELSE tags)
+  /\ dead' = dead \cup PropsOf(tags)
+  /\ Flag(l, LiveTags(tags, dead))
 
 PollTags ==
-       (IF e.pr # pressing' THEN {"C15:press-state"} ELSE {})
-  \cup (IF e.k = NaNKey \/ e.k < 0 \/ e.k > KeyOne THEN {"C16:range"} ELSE {})
-  \cup (IF ~pressing' /\ e.k # lastK THEN {"C16:not-retained"} ELSE {})
+       (IF e.pr # pressing' THEN {<<"C15", "press-state">>} ELSE {})
+  \cup (IF e.k = NaNKey \/ e.k < 0 \/ e.k > KeyOne THEN {<<"C16", "range">>} ELSE {})
+  \cup (IF ~pressing' /\ e.k # lastK THEN {<<"C16", "not-retained">>} ELSE {})
   \cup (IF pressing' /\ e.pr /\ e.q # NaNKey /\
           ~Near(MulQ(e.q, bq), CorrQ(MeanQ(val'[1], val'[2])), val'[2] + 16)
-          THEN {"C16:value"} ELSE {})
+          THEN {<<"C16", "value">>} ELSE {})
 
 TMeta == e.op = "meta" /\ UNCHANGED <<rVars, dead, lastK, bq, ecq>> /\ l' = l + 1
 
@@ -58,9 +58,9 @@ TNew ==
                cap |-> (e.fs * 15) \div 1000 + e.fs \div 500 + 1, thr |-> e.thr]
      IN /\ cfg' = c /\ run' = 0 /\ win' = <<>> /\ sum' = 0
         /\ pressing' = FALSE /\ jp' = FALSE /\ jr' = FALSE /\ val' = <<0, 1>>
-        /\ Flag(l, IF e.cap # c.cap THEN {"C15:capacity"} ELSE {})
+        /\ Flag(l, IF e.cap # c.cap THEN {<<"C15", "capacity">>} ELSE {})
   /\ lastK' = 0 /\ bq' = e.bq /\ ecq' = e.ecq
-  /\ l' = l + 1 /\ dead' = FALSE
+  /\ l' = l + 1 /\ dead' = {}
 
 TPoll ==
   /\ e.op = "p"
@@ -69,22 +69,22 @@ TPoll ==
   /\ Advance(PollTags)
 
 TJP == /\ e.op = "jp" /\ PollJP /\ UNCHANGED <<lastK, bq, ecq>>
-       /\ Advance(IF e.r # jp THEN {"C15:just-pressed"} ELSE {})
+       /\ Advance(IF e.r # jp THEN {<<"C15", "just-pressed">>} ELSE {})
 TJR == /\ e.op = "jr" /\ PollJR /\ UNCHANGED <<lastK, bq, ecq>>
-       /\ Advance(IF e.r # jr THEN {"C15:just-released"} ELSE {})
+       /\ Advance(IF e.r # jr THEN {<<"C15", "just-released">>} ELSE {})
 
 TPair ==
   /\ e.op = "pair"
   /\ UNCHANGED <<rVars, lastK, bq, ecq>>
   /\ l' = l + 1 /\ dead' = dead
-  /\ Flag(l, (IF ~e.pa \/ ~e.pb THEN {"C15:press-state"} ELSE {})
-        \cup (IF e.kind = "same" /\ e.ka # e.kb THEN {"C16:depends-on-excluded-sample"} ELSE {})
-        \cup (IF e.kind = "raise" /\ e.kb < e.ka THEN {"C16:not-monotone"} ELSE {}))
+  /\ Flag(l, (IF ~e.pa \/ ~e.pb THEN {<<"C15", "press-state">>} ELSE {})
+        \cup (IF e.kind = "same" /\ e.ka # e.kb THEN {<<"C16", "depends-on-excluded-sample">>} ELSE {})
+        \cup (IF e.kind = "raise" /\ e.kb < e.ka THEN {<<"C16", "not-monotone">>} ELSE {}))
 
-TPanic == /\ e.op = "panic" /\ UNCHANGED <<rVars, lastK, bq, ecq>> /\ Advance({"C17:panic"})
+TPanic == /\ e.op = "panic" /\ UNCHANGED <<rVars, lastK, bq, ecq>> /\ Advance({<<"C17", "panic">>})
 
 TNext == l <= NRec /\ (TMeta \/ TNew \/ TPoll \/ TJP \/ TJR \/ TPair \/ TPanic)
-TInit == /\ RInit([ig |-> 0, dc |-> 0, cap |-> 2, thr |-> 4096]) /\ l = 1 /\ dead = FALSE /\ lastK = 0
+TInit == /\ RInit([ig |-> 0, dc |-> 0, cap |-> 2, thr |-> 4096]) /\ l = 1 /\ dead = {} /\ lastK = 0
          /\ bq = 16777216 /\ ecq = 0 /\ FlagInit
 TSpec == TInit /\ [][TNext]_tvars
 =============================================================================
